@@ -15,7 +15,7 @@ MAX_BYTES_PER_USER = 300            # keeps every interactive_t.text far away fr
 class C12(Prop):
     id = "C12"
     title = "Buffered commands are served fairly: one per user per cycle, nobody starves"
-    lean_modules = ["NV.C12.Props", "NV.C12.Witness", "NV.C12.Trace"]
+    lean_modules = ["NV.C12.Props", "NV.C12.Witness", "NV.C12.Trace", "NV.C12.Fifo3"]
     lean_modules_ = None
     theorems = [
         "NV.C12.flag_bits",
@@ -47,6 +47,13 @@ class C12(Prop):
         "NV.C12.judgeStruct_events",
         "NV.C12.judgeEfun_events",
         "NV.C12.judgeEv_events_eq_data",
+        "NV.C12.sim_send",
+        "NV.C12.sim_arrive",
+        "NV.C12.sim_setCall",
+        "NV.C12.sim_serve",
+        "NV.C12.reframe_enc",
+        "NV.C12.consume_line",
+        "NV.C12.consume_char",
     ]
     witness_theorems = []
     consts = [("hasCmdTurn", "HAS_CMD_TURN"), ("cmdInBuf", "CMD_IN_BUF"), ("singleChar", "SINGLE_CHAR"),
@@ -189,6 +196,19 @@ class C12(Prop):
            ["cycle"] * 3 + ["close u51", "cycle", "conn", "cycle", "send u53 q~", "send u52 c~", "cycle", "cycle"])
         mk("last-slot-of-table", ["conn"] * 49 + ["cycle"] * 50 + ["send u49 a~b~", "send u48 a~", "send u1 a~b~"] +
            ["cycle"] * 3 + ["send u49 c~", "cycle", "cycle"])
+        mk("table-grows-twice", ["conn"] * 101 + ["cycle"] * 102 + ["send u%d a~b~" % i for i in (1, 2, 50, 51, 99, 100, 101)] +
+           ["cycle"] * 3 + ["close u100", "close u3", "cycle", "conn", "cycle", "conn", "cycle", "send u102 q~", "send u103 r~",
+                            "send u101 c~", "cycle", "cycle"])
+        mk("new-user-below-and-above-cursor", ["script u4 =k kick,u2"] + conns(6) +
+           ["send u%d a~b~c~d~" % i for i in (1, 3, 4, 5, 6)] + ["send u4 k~", "cycle", "cycle", "cycle", "cycle", "cycle",
+            "conn", "cycle", "send u7 x~y~", "cycle", "close u6", "cycle", "conn", "cycle", "conn", "cycle",
+            "send u8 p~", "send u9 q~", "send u1 e~", "cycle", "cycle", "cycle"])
+        mk("getchar-lines-and-empties", ["script u1 =g gc", "script u1 =h gc;it", "script u2 =g it"] + conns(2) +
+           ["send u1 g~c~", "send u2 g~x~", "cycle", "send u1 ~~x~", "send u1 ~", "cycle", "cycle", "cycle", "cycle",
+            "send u1 h~ab", "cycle", "send u1 cd~~e", "cycle", "cycle", "cycle", "send u1 f~", "cycle", "cycle", "cycle"])
+        mk("input-to-noecho", ["script u1 =p itn", "script u1 =q itn;gc", "script u2 =p gc;itn"] + conns(2) +
+           ["send u1 p~secret~a~", "send u2 p~zz", "cycle", "cycle", "cycle", "send u1 q~pw~b~", "send u2 y~", "cycle", "cycle",
+            "cycle", "cycle"])
         mk("kick-waiting-user", ["script u3 =k kick,u1;kick,u2", "script u2 =s kick,u2;gc"] + conns(3) +
            ["send u1 a~b~", "send u2 a~b~", "send u3 k~c~", "cycle", "cycle", "conn", "cycle", "send u4 s~", "cycle", "cycle"])
         mk("self-kick-and-drop", ["script u2 =s kick,u2;ecmd,u1,m1", "script u1 =d drop,u1;ecmd,u1,m1;gc", "script u1 =m1 it"] +
@@ -216,7 +236,7 @@ class C12(Prop):
     def gen_script(self, rng, nusers, level):
         ops = []
         for _ in range(rng.range(1, 3)):
-            k = rng.weighted([("kick", 2), ("drop", 2), ("ecmd", 5 if level > 1 else 0), ("gc", 3), ("it", 2)])
+            k = rng.weighted([("kick", 2), ("drop", 2), ("ecmd", 5 if level > 1 else 0), ("gc", 3), ("it", 2), ("itn", 1)])
             if k in ("kick", "drop"):
                 ops.append("%s,u%d" % (k, rng.range(1, nusers + 1)))
             elif k == "ecmd":
@@ -243,7 +263,7 @@ class C12(Prop):
         big = tier != "quick" and rng.chance(1, 40)
         nmax = rng.range(1, 6) if not rng.chance(1, 6) else rng.range(6, 12)
         if big:
-            nmax = rng.range(50, 58)
+            nmax = rng.range(50, 58) if rng.chance(2, 3) else rng.range(100, 112)
         lines = []
         # scripts
         for _ in range(rng.range(0, 6)):
@@ -259,7 +279,7 @@ class C12(Prop):
             # get_char heavy: lines typed while a get_char() is pending, partial lines typed ahead of it
             for u in range(1, min(nmax, 4) + 1):
                 for wd in (rng.choice(WORDS), rng.choice(WORDS)):
-                    lines.append("script u%d =%s %s" % (u, wd, rng.choice(["gc", "gc", "gc;it", "it", "gc;ecmd,u%d,n1" % u])))
+                    lines.append("script u%d =%s %s" % (u, wd, rng.choice(["gc", "gc", "gc;it", "it", "itn", "gc;ecmd,u%d,n1" % u])))
         nconn = 0
         nacc = 0
         closed = set()
